@@ -1200,6 +1200,24 @@ func (o *c18Obs) oracle(sc *c18Scenario) string {
 	if r.IsSuccessState() && r.IsErrorState() {
 		return "both states"
 	}
+	// the state predicates classify the response the caller holds NOW (the final exchange): the
+	// oracle's own reading of the checker in force on that status / those headers
+	{
+		want := "U"
+		if r.Response != nil {
+			switch {
+			case sc.checker.fn != nil:
+				want = c18StateName(sc.checker.fn(&Response{Response: r.Response, Request: r.Request}))
+			case r.StatusCode >= 200 && r.StatusCode <= 299:
+				want = "S"
+			case r.StatusCode >= 400:
+				want = "E"
+			}
+		}
+		if got := c18StateName(r.ResultState()); got != want || r.IsSuccessState() != (want == "S") || r.IsErrorState() != (want == "E") {
+			return "the state predicates say " + got + " but the response the caller holds classifies as " + want
+		}
+	}
 	// binding against the final http response
 	var f *c18Http
 	if r.Response != nil {
@@ -1973,11 +1991,11 @@ func TestVerif_C18_call(t *testing.T) {
 			h := &c18Http{status: code, readOK: r.Intn(12) != 0}
 			switch (k + code) % 4 {
 			case 0:
-				h.ct = verifh.Pick(r, []string{"application/json", "application/json; charset=utf-8", "application/problem+json"})
+				h.ct = verifh.Pick(r, []string{"application/json", "application/json; charset=utf-8", "application/problem+json", "application/JSON", "Application/Json"})
 			case 1:
-				h.ct = verifh.Pick(r, []string{"text/xml", "application/xml", "application/soap+xml; charset=utf-8"})
+				h.ct = verifh.Pick(r, []string{"text/xml", "application/xml", "application/soap+xml; charset=utf-8", "application/XML", "TEXT/Xml"})
 			case 2:
-				h.ct = verifh.Pick(r, []string{"text/plain", "text/html", "application/octet-stream", "application/JSON"})
+				h.ct = verifh.Pick(r, []string{"text/plain", "text/html", "application/octet-stream", "image/png"})
 			}
 			switch r.Intn(5) {
 			case 0:
